@@ -32,7 +32,7 @@ def F(prop, clause, sig, what, seq):
 
 # ---------------------------------------------------------------- topology-aware
 
-def ta_state_findings(rec, cfg, machine):
+def ta_state_findings(rec, cfg, machine, prev_grants=None):
     """Invariants C01 / C03 / C04 on one post-event snapshot."""
     out = []
     ta = rec.get('ta')
@@ -150,7 +150,10 @@ def ta_state_findings(rec, cfg, machine):
             sig = 'descendant-of-slicing-grant' if sliced_above else 'empty-cpuset'
             out.append(F('C03', 'nonempty-cpuset', sig, 'container %s (pool %s) has an empty allowed cpuset' % (c['id'], g['pool']), seq))
         pr = c.get('prefs')
-        if pr:
+        # eligibility is decided when a grant is made: look at grants made by this request (a grant
+        # reinstated verbatim by a reconfiguration/restart predates the configuration now in force)
+        fresh = rec['op'] not in ('Reconfigure', 'Restart', 'Setup') and (prev_grants is None or prev_grants.get(g['id']) != g)
+        if pr and fresh:
             want_full = pr['full'] if pr['cputype'] == 'normal' else 0
             if len(g['exclusive']) != want_full:
                 out.append(F('C03', 'eligibility', 'exclusive-count-mismatch',
